@@ -101,9 +101,12 @@ type family struct {
 	stdout        bool
 	refLimit      int
 	prepareReplay func(cs *gcase)
-	maxDepth      int // drop cases whose derivation nests deeper than this many rule applications (0 = no bound)
-	stateCode     func(cs *gcase) func(int) string
-	noexec        bool
+	// history: additionally run all first-rule inputs of a case on ONE reused instance (Buffer=in; Reset(); Parse())
+	// under these configs and require every step to equal the fresh-instance result
+	history   []string
+	maxDepth  int // drop cases whose derivation nests deeper than this many rule applications (0 = no bound)
+	stateCode func(cs *gcase) func(int) string
+	noexec    bool
 	// judge is called once per (case, entry) with the reference evaluation and the results by config name.
 	judge func(cs *gcase, e entry, it *ref.Interp, refOK bool, refEnd int, res map[string]*corpus.Res)
 	// onJob lets the property look at the generation result of each package (C08 style observations).
@@ -253,9 +256,68 @@ func (f *family) runBatch(peg string, cases []*gcase, vs []variant, bno int) {
 			}
 		}
 	}
+	type hkey struct{ ci, cfi int }
+	hwhere := map[hkey]int{}
+	hentries := map[int][]int{}
+	for ci, cs := range cases {
+		for cfi, cf := range f.configs {
+			use := false
+			for _, h := range f.history {
+				use = use || h == cf.name
+			}
+			if !use {
+				continue
+			}
+			var hb [][]byte
+			var idx []int
+			for ei, e := range cs.entries {
+				if e.rule < 0 && !refs[ci][ei].it.Over && (f.maxDepth == 0 || refs[ci][ei].it.MaxDepth <= f.maxDepth) {
+					hb = append(hb, []byte(e.input))
+					idx = append(idx, ei)
+				}
+			}
+			if len(hb) < 2 {
+				continue
+			}
+			hentries[ci] = idx
+			hwhere[hkey{ci, cfi}] = len(reqs)
+			reqs = append(reqs, corpus.Req{Pkg: pkgName(cs.id, cf.v), Mode: "history", Entry: -1, Hist: hb, Memo: cf.memo, Size: cf.size, U: cf.u, Pretty: cf.pretty, NoExec: f.noexec})
+		}
+	}
 	results, err := cp.Run(reqs, corpus.RunOpts{})
 	if err != nil {
 		die("corpus run: %v", err)
+	}
+	for hk, ri := range hwhere {
+		hr := results[ri]
+		cs := cases[hk.ci]
+		cf := f.configs[hk.cfi]
+		if hr.Lost {
+			continue
+		}
+		id := report.Hash(cs.text, "history", cf.name)
+		if hr.Fatal != "" || hr.Panic != "" || len(hr.Hist) != len(hentries[hk.ci]) {
+			f.c.run.Violate("history-crash:"+id, "a reused parser (Buffer=in; Reset(); Parse()) crashed: "+hr.Panic+firstLine(hr.Fatal), map[string]any{"grammar": cs.text, "config": cf.name})
+			continue
+		}
+		for k, ei := range hentries[hk.ci] {
+			fi, ok := where[key{hk.ci, ei, hk.cfi}]
+			if !ok || results[fi].Lost {
+				continue
+			}
+			f.c.run.Eval(1)
+			f.c.run.Count("reused_instance_steps", 1)
+			fresh := results[fi]
+			if got, want := resKey(&hr.Hist[k]), resKey(&fresh); got != want {
+				var hist []string
+				for _, x := range hentries[hk.ci][:k+1] {
+					hist = append(hist, cs.entries[x].input)
+				}
+				f.c.run.Violate("history:"+id, fmt.Sprintf("step %d on one reused parser (config %s) differs from a fresh parser on the same input", k, cf.name),
+					map[string]any{"grammar": cs.text, "config": cf.name, "history": hist, "input": cs.entries[ei].input, "reused": got, "fresh": want})
+				break
+			}
+		}
 	}
 	for ci, cs := range cases {
 		for ei, e := range cs.entries {
